@@ -36,30 +36,32 @@ package native
 //@   ensures result >= 0 ==> (forall k int :: old(*p) <= k && k < result ==> isSpace((*s)[k]))
 //@   ensures result < 0 ==> (0 <= *p && *p <= len(*s) + 4 && -10 <= result)
 
-// ---- text algebra for the escaping routines.  tcat is concatenation of texts; the
-// escaping functions work byte by byte, so they distribute over concatenation
-// (these are the defining properties, assumed).
+// ---- text algebra for the escaping routines.  tcat is concatenation of texts;
+// arrtxt(a, o, n) is the text of the n bytes a[o..o+n).  The axioms are the defining
+// properties of concatenation (assumed: the text sort is abstract).
 //@ pure func tcat(a text, b text) text
 //@ pure func htmlSpec(src text) text
 //@ pure func quoteSpec(src text, flags uint64) text
-//@ axiom tcat_assoc: forall a text, b text, c text :: tcat(tcat(a, b), c) == tcat(a, tcat(b, c))
+//@ axiom tcat_assoc: forall a text, b text, c text :: { tcat(tcat(a, b), c) } tcat(tcat(a, b), c) == tcat(a, tcat(b, c))
 //@ axiom tcat_empty: forall a text :: tcat(a, txt("")) == a && tcat(txt(""), a) == a
-//@ axiom html_hom: forall a text, b text :: htmlSpec(tcat(a, b)) == tcat(htmlSpec(a), htmlSpec(b))
+//@ axiom txt_split: forall a bytes, o int, n1 int, o2 int, n2 int :: { tcat(arrtxt(a, o, n1), arrtxt(a, o2, n2)) } (o2 == o + n1 && n1 >= 0 && n2 >= 0) ==> tcat(arrtxt(a, o, n1), arrtxt(a, o2, n2)) == arrtxt(a, o, n1 + n2)
 //@ axiom html_empty: htmlSpec(txt("")) == txt("")
-//@ axiom quote_hom: forall a text, b text, f uint64 :: quoteSpec(tcat(a, b), f) == tcat(quoteSpec(a, f), quoteSpec(b, f))
-//@ axiom quote_empty: forall f uint64 :: quoteSpec(txt(""), f) == txt("")
 
 // html_escape(sp, nb, dp, &dn): reads only [sp, sp+nb), writes only [dp, dp+dn0) (C05, C06);
-// dn becomes the number of bytes written; on "output full" the bytes written are
-// exactly the escaping of the first ^ret input bytes (prefix-exact restart, C20).
+// dn becomes the number of bytes written.  On success the output is the escaping of
+// the input; on "output full" (ret < 0) the ^ret consumed bytes end on a character
+// boundary and the bytes written are exactly their escaping, so the caller may restart
+// at sp + ^ret (prefix-exact restart, C20): escaping(input) = written ++ escaping(rest).
 //@ func HTMLEscape assumed "native html_escape (pre-assembled machine code)"
 //@   requires nb >= 0 && ptrlo(s) <= ptrindex(s) && ptrindex(s) + nb <= ptrhi(s)
 //@   requires *dn >= 0 && ptrlo(dp) <= ptrindex(dp) && ptrindex(dp) + *dn <= ptrhi(dp)
 //@   modifies *dn, rawmem(dp)
 //@   ensures 0 <= *dn && *dn <= old(*dn)
-//@   ensures result >= 0 ==> (result == nb && rawtxt(dp, *dn) == htmlSpec(rawtxt(s, nb)))
-//@   ensures result < 0 ==> (0 <= -result - 1 && -result - 1 < nb && rawtxt(dp, *dn) == htmlSpec(rawtxt(s, -result - 1)))
+//@   ensures result >= 0 ==> (result == nb && rawtxt(dp, *dn) == htmlSpec(old(rawtxt(s, nb))))
+//@   ensures result < 0 ==> (0 <= -result - 1 && -result - 1 < nb)
+//@   ensures result < 0 ==> htmlSpec(old(rawtxt(s, nb))) == tcat(rawtxt(dp, *dn), htmlSpec(old(rawtxtat(s, ptrindex(s) + (-result - 1), nb - (-result - 1)))))
 //@   ensures forall j int :: (ptrlo(dp) <= j && j < ptrindex(dp)) ==> rawat(dp, j) == old(rawat(dp, j))
+//@   ensures forall lo int, n int :: { rawtxtat(dp, lo, n) } (ptrlo(dp) <= lo && 0 <= n && lo + n <= ptrindex(dp)) ==> rawtxtat(dp, lo, n) == old(rawtxtat(dp, lo, n))
 
 // ---- dispatch wiring (C13): each slot of the function-pointer table is filled
 // with the same-named routine of ONE instruction-set package; both variants fill
